@@ -1,9 +1,9 @@
 #!/usr/bin/env python3
 """Final confirmation of the seeded changes kept under /verif/seeded/<name>/ against /repo itself:
     git -C /repo apply seeded/<name>/patch.diff ; run the checks ; git -C /repo checkout -- .
-The checks are run with VERIF_REPO=/repo so that they build from /repo's (patched) working tree but
-write their evidence and replays under /verif/.build/alt-repo/ - the committed evidence files are never
-touched by a run against a patched tree. Nothing is ever committed in /repo.
+The checks build from /repo's (patched) working tree and write /verif/evidence/<id>.json like any run:
+those files are NOT committed, the evidence is regenerated on the unchanged tree afterwards.
+Nothing is ever committed in /repo.
 Usage: seed_confirm.py [name ...]        (default: every directory under /verif/seeded)
        SEED_TIER=thorough seed_confirm.py name   (default tier: quick)"""
 import json, os, subprocess, sys, time
